@@ -170,7 +170,7 @@ _RE_BEH = re.compile(r'^<<"BEH", (".*")>>$')
 
 
 def run_tlc(ctx, spec, cfg, name=None, workers=8, timeout=600, simulate=None, depth=None,
-            extra=(), heap="6g", deque=False, cfg_text=None, defines=None, expect_violation=False):
+            extra=(), heap="6g", deque=False, cfg_text=None, defines=None, expect_violation=False, _retry=False):
     """Run TLC. Returns dict with distinct, generated, complete, violated (invariant/property/
     postcondition name or None), out (stdout text), behaviours (parsed BEH lines)."""
     name = name or (spec + "." + cfg)
@@ -239,7 +239,15 @@ def run_tlc(ctx, spec, cfg, name=None, workers=8, timeout=600, simulate=None, de
     if timed_out and simulate is None:
         raise Infra("TLC timed out after %ds on %s/%s" % (timeout, spec, cfg))
     if not res["complete"] and not res["violated"]:
-        raise Infra("TLC failed on %s/%s (rc=%s):\n%s" % (spec, cfg, rc, out[-3000:]))
+        if not _retry:
+            log("TLC failed on %s/%s (rc=%s); retrying once. Last lines: %s" % (
+                spec, cfg, rc, " | ".join([x for x in out.splitlines() if not x.startswith('<<"BEH"')][-6:])))
+            time.sleep(2)
+            return run_tlc(ctx, spec, cfg, name=name, workers=workers, timeout=timeout, simulate=simulate,
+                           depth=depth, extra=extra, heap=heap, deque=deque, cfg_text=cfg_text, defines=defines,
+                           expect_violation=expect_violation, _retry=True)
+        raise Infra("TLC failed on %s/%s (rc=%s):\n%s" % (spec, cfg, rc, "\n".join(
+            [x for x in out.splitlines() if not x.startswith('<<"BEH"')][-40:])))
     if res["violated"] and not expect_violation:
         # a design-level counterexample is *not* a violation of the code (DESIGN §2.2)
         raise Infra("design spec %s/%s violates %s — the specification is wrong or models a defect; "
@@ -247,9 +255,30 @@ def run_tlc(ctx, spec, cfg, name=None, workers=8, timeout=600, simulate=None, de
     return res
 
 
-def tlc_mc(ctx, spec, cfg, label=None, **kw):
-    """Leg A."""
+def coverage_zeros(out):
+    """Parse `-coverage 1` output: actions never taken and expressions never evaluated."""
+    zero_actions, zero_exprs = [], []
+    for m in re.finditer(r"^<(\w+) line (\d+), col \d+ to line \d+, col \d+ of module (\w+)>: (\d+):(\d+)$", out, re.M):
+        if int(m.group(5)) == 0:
+            zero_actions.append(m.group(1))
+    for m in re.finditer(r"^\s+\|*line (\d+), col (\d+) to line (\d+), col (\d+) of module (\w+): 0$", out, re.M):
+        zero_exprs.append("%s:%s:%s" % (m.group(5), m.group(1), m.group(2)))
+    return sorted(set(zero_actions)), sorted(set(zero_exprs))
+
+
+def tlc_mc(ctx, spec, cfg, label=None, coverage=False, allow_zero_actions=(), **kw):
+    """Leg A.  coverage=True adds `-coverage 1` and fails (Infra: vacuity) if an action of the
+    spec was never taken (except those named in allow_zero_actions); never-evaluated
+    sub-expressions are reported in the evidence."""
+    if coverage:
+        kw["extra"] = tuple(kw.get("extra", ())) + ("-coverage", "1")
     res = run_tlc(ctx, spec, cfg, **kw)
+    if coverage:
+        za, ze = coverage_zeros(res["out"])
+        za = [a for a in za if a not in allow_zero_actions]
+        ctx.cov.setdefault("vacuity", {})[spec + "/" + cfg] = {"actions_never_taken": za, "expressions_never_evaluated": ze[:40]}
+        if za:
+            raise Infra("vacuity: actions never taken in %s/%s: %s" % (spec, cfg, za))
     ctx.add_model_run(res, label or (spec + "/" + cfg))
     log("leg A %s/%s: %d distinct / %d generated states, %.1fs (%s)" % (
         spec, cfg, res["distinct"], res["generated"], res["wall_s"], res["mode"]))
